@@ -1769,6 +1769,37 @@ def c02_cases(tier, seed):
         cases.append(script_case(cmds, mode=mode, cols=cols, prompt=prompt, history=hist, hints=hints, chunks=chunks,
                                  timeout=0 if mode == "vi" else rng.choice(["none", 0]),
                                  initial=p_tty.mk_initial(rng, 0.25, C02_TEXT + ["\n"])))
+    # hints that are really shown: the typed line is a prefix of a hint whose rest ends exactly at, just before or just
+    # after the right margin (the line itself possibly ending in a line break), then motions, completion of the hint, edits,
+    # and every way of ending the read (Enter, and in vi C-d on a non-empty line: the hint must be gone when the read returns)
+    for _ in range(n // 5):
+        mode = rng.choice(["emacs", "vi", "vi"])
+        cols = rng.choice([8, 10, 20])
+        prompt = rng.choice(["", "> "])
+        base = p_tty.rand_text(rng, 1, 4, ["a", "b", "x"])
+        lf = rng.random() < 0.4
+        line = base + ("\n" if lf else "")
+        used = 0 if lf else (len(prompt) + len(base)) % cols
+        rest_len = (cols - used) + rng.choice([0, 0, 0, -1, 1, cols]) + (cols if used == 0 and not lf else 0) * 0
+        rest_len = max(1, rest_len)
+        hints = [line + "h" * rest_len]
+        cmds = [Cmd([ch], "ins", c=ord(ch), n=1) for ch in base]
+        if lf:
+            cmds.append(Cmd(["C-v", "C-j"], "ins", c=LF, n=1))
+        for _ in range(rng.randint(0, 4)):
+            r = rng.random()
+            if r < 0.4:
+                cmds.append(Cmd([rng.choice(["Left", "Right", "Home", "End"])], "motion"))
+            elif r < 0.6:
+                cmds.append(Cmd([rng.choice(["Backspace", "C-h"])], "edit"))
+            else:
+                c = rng.choice(["a", "h", "x"])
+                cmds.append(Cmd([c], "ins", c=ord(c), n=1))
+        cmds.append(Cmd(["F12"], "noop"))
+        cmds.append(Cmd(["C-d"], "enter") if mode == "vi" and rng.random() < 0.6 else Cmd(["Enter"], "enter"))
+        chunks = [b"".join(p_tty.key_bytes(k) for k in cmd.keys) for cmd in cmds]
+        cases.append(script_case(cmds, mode=mode, cols=cols, prompt=prompt, hints=hints, chunks=chunks,
+                                 timeout=0 if mode == "vi" else rng.choice(["none", 0])))
     return cases
 
 
